@@ -113,6 +113,37 @@ def _next(it, *default):
     if default:
         return default[0]
     raise NotConst("next() of an empty iterable (StopIteration)")
+def _copy_containers(v, deep: bool, _memo=None):
+    """copy.copy / copy.deepcopy over the plain containers of folded values (list, dict, set, tuple); leaves - numbers, strings,
+    rule-supplied stubs (Enum members, records are immutable) - are shared, which no evaluated code can observe."""
+    _memo = {} if _memo is None else _memo
+    if id(v) in _memo:
+        return _memo[id(v)]
+    rec = (lambda x: _copy_containers(x, True, _memo)) if deep else (lambda x: x)
+    if getattr(v, "_folder_stub", False):
+        if deep and isinstance(v, tuple) and any(isinstance(x, (list, dict, set)) or (isinstance(x, tuple) and x is not v and getattr(x, "_folder_stub", False) and any(isinstance(y, (list, dict, set)) for y in x)) for x in v):
+            raise NotConst(f"deep copy of a {type(v).__name__} that holds containers")
+        return v
+    if isinstance(v, list):
+        out = []
+        _memo[id(v)] = out
+        out.extend(rec(x) for x in v)
+        return out
+    if isinstance(v, dict) and type(v) is dict:
+        out = {}
+        _memo[id(v)] = out
+        for k, x in v.items():
+            out[k] = rec(x)
+        return out
+    if isinstance(v, set):
+        return set(v)
+    if type(v) is tuple:
+        return tuple(rec(x) for x in v) if deep else v
+    if isinstance(v, (str, int, float, bool, frozenset, type(None))):
+        return v
+    raise NotConst(f"copy of a {type(v).__name__}")
+
+
 _METHODS = {
     (str, "join"),
     (str, "upper"),
@@ -150,6 +181,9 @@ _METHODS = {
     (dict, "values"),
     (dict, "items"),
     (dict, "get"),
+    (dict, "copy"),  # shallow, like the language: the values are shared with the original (sa/procstate.py decides what that means across calls)
+    (list, "copy"),
+    (set, "copy"),
     (list, "index"),
     (list, "count"),
     (tuple, "index"),
@@ -168,6 +202,8 @@ _MODULE_FUNCS = {
     ("math", "degrees"): math.degrees,
     ("math", "sqrt"): math.sqrt,
     # builtin class methods that build plain values (insertion-ordered de-duplication etc.)
+    ("copy", "copy"): lambda v: _copy_containers(v, False),
+    ("copy", "deepcopy"): lambda v: _copy_containers(v, True),
     ("dict", "fromkeys"): lambda it, v=None: dict.fromkeys(list(it), v),
     ("str", "join"): lambda sep, it: sep.join(list(it)),
 }
@@ -259,6 +295,9 @@ class Folder:
             if getattr(base, "_folder_stub", False) and hasattr(base, n.attr):  # property of a rule-supplied stub (Enum member .name / .value)
                 return getattr(base, n.attr)
             raise NotConst(f"attribute {ast.unparse(n)}")
+        if isinstance(n.value, ast.Name) and n.value.id in self.local and any(isinstance(self.local[n.value.id], t) and name == n.attr for t, name in _METHODS):
+            # a pure method of a local plain container, not called here (`min(d, key=d.get)`): the bound method
+            return getattr(self.local[n.value.id], n.attr)
         if isinstance(n.value, ast.Name):
             k = (n.value.id, n.attr)
             mod = self.repo.module(self.module)
@@ -409,6 +448,10 @@ class Folder:
             for k in n.keywords:
                 if k.arg == "reverse" or f.id == "dict":
                     kw[k.arg] = self.fold(k.value)
+                elif k.arg in ("key", "default") and f.id in ("sorted", "max", "min") and f.id not in self.local:
+                    kw[k.arg] = self.fold(k.value)  # a lambda, a bound method of a local container, a rule-supplied callable
+                    if k.arg == "key" and not callable(kw[k.arg]):
+                        raise NotConst("key is not callable")
                 else:
                     raise NotConst("keyword")
             return fn(*args, **kw)
